@@ -199,6 +199,8 @@ func checkC09(c *Ctx) {
 
 	// (5) reporting clamp: wherever RecvSeqId of a description is set from cached marks it is max(recv, read)
 	c.checkReportClamp()
+	// each recipient gets its own copy of the {info} payload (it is renamed per recipient)
+	c.checkMessageCopyIsDeep()
 }
 
 func valDesc(v ssa.Value, seqName string) string {
